@@ -125,7 +125,7 @@ func runC07EmptyPoint(c *Ctx) {
 					}
 				}
 			}
-			c.Bad(in.Pos(), fn, "read Point.coords", "coordinate fields of a Point read without establishing that it is non-empty (an empty Point has zero-valued coords, which would be encoded as a real position)")
+			c.Bad(in.Pos(), fn, "read Point.coords", "coordinate fields of a Point read without establishing that it is non-empty (an empty Point has zero-valued coords, which would be treated as a real position)")
 		})
 	}
 	// call sites, to a fixpoint
